@@ -82,6 +82,28 @@ def run(ctx, escalated=False):
         ctx.count("conductor:" + r["ret"])
         if k % 30 == 29:
             shutil.rmtree(os.path.join(ctx.scratch, "cond"), ignore_errors=True)
+    # directed: a real run in a study directory that holds the leftovers of an earlier *dry* run of the
+    # same study, stopped early under throttle 1 (seeded change C01-m carried "completed" steps over
+    # from the old graph pickle - steps a dry run never executed)
+    for k in range(4 if quick else 40):
+        n_ = ctx.rng.choice([3, 4])
+        study = [{"name": "st0", "description": "d", "run": {"cmd": "echo $(X) 0"}}]
+        for j in range(1, n_):
+            study.append({"name": "st%d" % j, "description": "d",
+                          "run": {"cmd": "echo $(X) %d" % j, "depends": ["st%d" % (j - 1)]}})
+        spec = {"description": {"name": "redo", "description": "a dry run first, then the real thing"},
+                "study": study, "global.parameters": {"X": {"values": [1, 2], "label": "X.%%"}}}
+        r0 = condsim.run(ctx, ctx.rng, "redo%d" % k, spec=spec, max_polls=ctx.rng.choice([1, 2, 3]),
+                         force={"dry": True, "throttle": 1, "use_tmp": False, "hash_ws": False})
+        r = condsim.run(ctx, ctx.rng, "redo%d" % k, spec=spec,
+                        force={"dry": False, "use_tmp": False, "hash_ws": False, "_world": "benign"})
+        if r is None:
+            continue
+        extra.append(Case({"kind": "conductor-after-a-dry-run", "spec": r["spec"], "polls": r["polls"],
+                           "returned": r["ret"], "dry_run_first": None if r0 is None else r0["polls"]},
+                          [], [], r["mon"]["C01"][:3], True))
+        ctx.count("conductor-after-a-dry-run:" + r["ret"])
+    shutil.rmtree(os.path.join(ctx.scratch, "cond"), ignore_errors=True)
     import scripted as S
     # "... or run locally": real processes through the real local adapter (`maestro run -fg`), with scripts
     # that exit non-zero or are killed by a signal - a child must not start after such a parent
